@@ -73,6 +73,11 @@ func Chunking(t *rapid.T, st []uint16, allowOverRun bool) []m.TWCCChunk {
 				oneBitOK = false
 			}
 		}
+		// a run-length chunk of length zero describes no packet: format-legal wherever a chunk is
+		// read, never produced by an encoder that packs greedily
+		if rapid.IntRange(0, 15).Draw(t, "zero.run?") == 0 {
+			out = append(out, m.TWCCChunk{Symbol: uint16(rapid.IntRange(0, 2).Draw(t, "zero.run.symbol")), Run: 0})
+		}
 		var choices []int // 0 run, 1 one-bit vector, 2 two-bit vector
 		choices = append(choices, 0, 2)
 		if oneBitOK {
@@ -138,6 +143,19 @@ func FixTWCCHeader(v *m.TWCC, padFlagIfPadded bool) {
 
 // TWCC draws a well-formed transport-wide-cc feedback (status count <= 300 mostly).
 func TWCC(t *rapid.T) *m.TWCC {
+	// one value in sixteen is long: runs of 4096..8191 statuses (all 13 bits of a run length) and
+	// status counts up to 65535 appear in well-formed values too, not only in C13's inputs
+	if rapid.IntRange(0, 15).Draw(t, "twcc.long?") == 0 {
+		s, c1, _ := LongTWCC(t)
+		total := 0
+		for _, c := range c1 {
+			total += int(c.Run)
+		}
+		if over := total - len(s.Statuses); over > 0 { // a value of D has no over-long final run
+			c1[len(c1)-1].Run -= uint16(over)
+		}
+		return BuildTWCC(t, s, c1)
+	}
 	s := Statuses(t, 300)
 	return BuildTWCC(t, s, Chunking(t, s.Statuses, false))
 }
